@@ -896,3 +896,117 @@ Proof.
   split. { vm_compute. repeat constructor; cbn; intuition congruence. }
   split; [reflexivity|]. split; [vm_compute; reflexivity|]. vm_compute. repeat split; reflexivity.
 Qed.
+
+(* ------------------------------------------------------------------ which exceptions can leave the handler
+   (all journals with unique keys, all requests, all filters) *)
+
+Lemma send_replay_gen r m s :
+  sending_ok s -> is_sess_type (r_type r) = false -> mk_replay r = Some m ->
+  has_key (r_seq r) (rows s) = false ->
+  exists fr, r_seq fr = r_seq r /\ send_msg m s = Ok (sent fr s).
+Proof.
+  intros Hs Ht Hm Hk. unfold mk_replay in Hm.
+  destruct (has_tag T_PossDupFlag (r_body r)) eqn:H43; [discriminate|].
+  destruct (has_tag T_OrigSendingTime (r_body r ++ [(T_PossDupFlag, V_Y)])); [discriminate|].
+  injection Hm as <-. unfold send_msg. rewrite gates_ok by assumption.
+  destruct (sess_false_types _ Ht) as [Ht1 Ht4]. cbn [m_type m_seq m_fields].
+  rewrite Ht1. cbn [andb]. unfold select_seq. cbn [m_type m_seq m_fields]. rewrite Ht4.
+  rewrite (get_tag_app_notin _ _ _ H43).
+  change (get_tag T_PossDupFlag [(T_PossDupFlag, V_Y); (T_OrigSendingTime, r_time r)]) with (Some V_Y).
+  cbv iota beta. change (str_eqb V_Y V_Y) with true. cbv iota beta.
+  unfold persist. cbn [r_seq rows]. unfold has_key in *. rewrite Hk.
+  eexists. split; [|reflexivity]. reflexivity.
+Qed.
+
+Lemma loop_exceptions f : forall rs p gfb gfe s,
+  asc p rs -> gfb <= p -> gfe <= p -> sending_ok s -> (forall r, In r (rows s) -> r_seq r < gfb) ->
+  match replay_loop f rs gfb gfe s with
+  | LOk g1 g2 s' => cstate s' = cstate s /\ (forall r, In r (rows s') -> r_seq r < g1)
+  | LExc e s' => e = EDuplicatedTag /\ cstate s' = cstate s
+  end.
+Proof.
+  induction rs as [|r rest IH]; intros p gfb gfe s Ha Hb He Hs Hrows; cbn [replay_loop]; [auto|].
+  destruct Ha as [Hp Ha].
+  destruct (is_sess_type (r_type r)) eqn:Hst.
+  { apply (IH (r_seq r + 1)); auto; lia. }
+  set (s0 := note_call (r_seq r) s).
+  assert (Hs0 : sending_ok s0) by exact Hs.
+  destruct (f r); cbn [negb].
+  2:{ specialize (IH (r_seq r + 1) gfb (r_seq r + 1) s0 Ha ltac:(lia) ltac:(lia) Hs0 Hrows).
+      destruct (replay_loop f rest gfb (r_seq r + 1) s0); exact IH. }
+  assert (Hstep : forall s1, sending_ok s1 -> cstate s1 = cstate s ->
+            (forall x, In x (rows s1) -> r_seq x < r_seq r) ->
+            match (match mk_replay r with
+                   | Some m => match send_msg m s1 with
+                               | Ok s2 => replay_loop f rest (r_seq r + 1) gfe s2
+                               | Exc e s' => LExc e s'
+                               end
+                   | None => LExc EDuplicatedTag s1
+                   end) with
+            | LOk g1 g2 s' => cstate s' = cstate s /\ (forall x, In x (rows s') -> r_seq x < g1)
+            | LExc e s' => e = EDuplicatedTag /\ cstate s' = cstate s
+            end).
+  { intros s1 Hs1 Hc1 Hr1. destruct (mk_replay r) as [m|] eqn:Hm; [|auto].
+    destruct (send_replay_gen r m s1 Hs1 Hst Hm (has_key_false _ _ Hr1)) as (fr & Hfr & ->).
+    assert (Hs2 : sending_ok (sent fr s1)) by exact Hs1.
+    assert (Hr2 : forall x, In x (rows (sent fr s1)) -> r_seq x < r_seq r + 1).
+    { intros x Hx. cbn [rows sent] in Hx. apply in_app_or in Hx as [Hx|[<-|[]]]; [specialize (Hr1 _ Hx)|]; lia. }
+    specialize (IH (r_seq r + 1) (r_seq r + 1) gfe (sent fr s1) Ha ltac:(lia) ltac:(lia) Hs2 Hr2).
+    destruct (replay_loop f rest (r_seq r + 1) gfe (sent fr s1)); cbn [cstate sent] in IH; rewrite <- Hc1; exact IH. }
+  destruct (gfb <? gfe) eqn:Hcmp.
+  - rewrite (send_gap_fill gfb gfe s0 Hs0 (has_key_false _ _ Hrows)).
+    apply Hstep; [exact Hs|reflexivity|].
+    intros x Hx. cbn [rows sent] in Hx. apply in_app_or in Hx as [Hx|[<-|[]]]; [specialize (Hrows _ Hx); lia|cbn; lia].
+  - apply Hstep; [exact Hs|reflexivity|]. intros x Hx. specialize (Hrows _ Hx). lia.
+Qed.
+
+Definition allowed_exc (x : option exc) : Prop :=
+  match x with
+  | Some EDuplicateSeqNo | Some EConnection | Some EEncoding => False
+  | _ => True
+  end.
+
+(* Whatever the journal (unique keys), the request and the filter: the journal write of a gap fill
+   or a retransmission never meets an existing row (rows >= BeginSeqNo were deleted and the numbers
+   sent are strictly increasing), the state gates never refuse, the encoder always finds a number;
+   and when an exception is swallowed the connection is left in RESENDREQ_HANDLING (unless it was
+   awaiting a resend itself). *)
+Lemma resend_exceptions f s bs es :
+  NoDup (map r_seq (rows s)) ->
+  let (s', x) := process_resend f bs es s in
+  allowed_exc x
+  /\ (x <> None -> cstate s' = (if cstate s =? ST_AWAITING then ST_AWAITING else ST_HANDLING)).
+Proof.
+  intros Hnd. unfold process_resend.
+  set (sa := if cstate s =? ST_AWAITING then s else state_set ST_HANDLING s).
+  assert (Hsa : sending_ok sa /\ rows sa = rows s
+                /\ cstate sa = (if cstate s =? ST_AWAITING then ST_AWAITING else ST_HANDLING)).
+  { unfold sa, sending_ok. destruct (cstate s =? ST_AWAITING) eqn:E; cbn; [|auto].
+    assert (cstate s = ST_AWAITING) by lia. auto. }
+  destruct Hsa as (Hs & Er & Ec). rewrite <- Ec. clearbody sa.
+  destruct bs as [bs|]; [|cbn; auto]. destruct (py_int bs) as [b|]; [|cbn; auto].
+  destruct es as [es|]; [|cbn; auto]. destruct (py_int es) as [e0|]; [|cbn; auto].
+  unfold resend_body. set (e := if e0 =? 0 then sys_maxsize else e0).
+  destruct (fits_int64 b && fits_int64 e); cbn [negb]; [|cbn; auto].
+  unfold set_seq_num_out at 1. destruct (b <=? 0) eqn:Hb0; [cbn; auto|].
+  set (s1 := mkSt (cstate sa) (initiator sa) (testreq_pending sa) b (b - 1) (clock sa)
+                  (filter (fun r => r_seq r <? b) (rows sa)) (wire sa) (calls sa) (states sa)).
+  assert (Hs1 : sending_ok s1) by exact Hs.
+  assert (Hr1 : forall r, In r (rows s1) -> r_seq r < b).
+  { intros r Hr. cbn [rows s1] in Hr. apply filter_In in Hr as [_ Hr]. lia. }
+  assert (Hasc : asc b (recover b e (rows sa))) by (rewrite Er; apply recover_asc; exact Hnd).
+  pose proof (loop_exceptions f _ b b b s1 Hasc ltac:(lia) ltac:(lia) Hs1 Hr1) as Hloop.
+  destruct (replay_loop f (recover b e (rows sa)) b b s1) as [g1 g2 s2|x s2].
+  2:{ destruct Hloop as [-> Hc]. cbn. split; [exact I|intros _; exact Hc]. }
+  destruct Hloop as [Hc2 Hr2].
+  destruct (g2 <=? nout sa); cbn [negb]; [|cbn; auto].
+  assert (Hs2 : sending_ok s2) by (unfold sending_ok; rewrite Hc2; exact Hs).
+  assert (Htail : exists s3, (if g1 <? nout sa then send_msg (gap_fill_msg g1 (nout sa)) s2 else Ok s2) = Ok s3
+                             /\ cstate s3 = cstate sa).
+  { destruct (g1 <? nout sa).
+    - eexists. split; [apply send_gap_fill; [exact Hs2|apply has_key_false; exact Hr2]|exact Hc2].
+    - exists s2. auto. }
+  destruct Htail as (s3 & -> & Hc3).
+  unfold set_seq_num_out. destruct (nout sa <=? 0); [cbn; auto|].
+  cbn. split; [exact I|congruence].
+Qed.
